@@ -22,9 +22,9 @@ P = {
  ["composition of the per-stage contracts into one statement over dispatch's written status (writeServiceError is inlined, the status written is the status of the error returned)", "what net/http does before and after dispatch"],
  TECH),
 "C03": (True,
- "Deductive proof that all three ranking comparators (sortableCurlyRoutes, sortableRouteCandidates, sortableDispatcherCandidates) equal their lexicographic key specs, that each key order is a strict weak order (lemmas), that CurlyRouter.selectRoutes and RouterJSR311.selectRoutes return the matching candidates sorted by it, that detectWebService computes the arg-max of the root score (first among equals, inductive lemma) and detectDispatcher a candidate no other matching one outranks, and that detectRoute returns the first route of the ranked list that passes all stages.",
+ "Deductive proof that all three ranking comparators (sortableCurlyRoutes, sortableRouteCandidates, sortableDispatcherCandidates) equal their lexicographic key specs, that each key order is a strict weak order (lemmas), that CurlyRouter.selectRoutes and RouterJSR311.selectRoutes return the matching candidates sorted by it, that detectWebService computes the arg-max of the root score (first among equals, inductive lemma) and detectDispatcher a candidate no other matching one outranks, that detectRoute returns the first route of the ranked list that passes all stages, and — composing these — that neither CurlyRouter.SelectRoute nor RouterJSR311.SelectRoute selects a route while another route of the chosen service that admits/matches the path and passes conditions, method, Content-Type and Accept outranks it.",
  COMMON_ASSUME + "A-SORT (sort.Sort permutes and orders by Less; sort.Reverse modelled as the identity with the reversed order in the contract).",
- ["the composition lemma 'no admitted passing route ranks before the selected one' at SelectRoute level (each link is a proved contract; the chained quantifier instantiation was not discharged)", "registration-order independence when different shapes score equal (D10) or JSR311 keys tie (sort.Sort is not stable)"],
+ ["registration-order independence when different shapes score equal (D10) or JSR311 keys tie (sort.Sort is not stable)"],
  TECH + ", inductive lemmas"),
 "C04": (True,
  "Deductive proof that tokenizePath yields the token sequence of the path, that untokenizePath joins the remaining tokens with '/', that the CurlyRouter matcher establishes the admission the extraction relies on, that defaultPathProcessor.ExtractParameters on every admitted (route, path) pair binds every declared variable and nothing else, each value being exactly the URL text of a token declaring that name (the segment minus literal suffix and custom-verb suffix; the remaining path joined by '/' for a tail wildcard), that RouterJSR311.extractParams/ExtractParameters bind exactly the declared names to the groups of the two matches (route variables win, nothing else bound), that concatPath/postBuild/Build produce a route whose tokens are the tokens of root+sub-path, and that dispatch extracts with the processor belonging to the router that selected the route and hands the result to the request.",
